@@ -78,3 +78,16 @@ fn sorted_no_dup() {
     kani::cover!(strictly && n == 4, "sorted data reachable");
     assert!(assert_sorted_no_dup(&d[..n]).is_some() == strictly, "C19.sorted: accepted exactly when strictly increasing");
 }
+
+/// `count_digits` (column widths of the text writer): total, = number of decimal digits (1 for 0).  Complete.
+#[kani::proof]
+fn count_digits_contract() {
+    let n: usize = kani::any();
+    let d = count_digits(n);           // must not panic for any n, 0 included
+    assert!(d >= 1 && d <= 20, "C19.digits: between 1 and 20 digits");
+    // d is the unique k with 10^(k-1) <= n < 10^k (n = 0 has one digit)
+    let mut p: u128 = 1; let mut k = 1;
+    while k < 20 { if k < d { p *= 10; } k += 1; }
+    if n == 0 { assert!(d == 1, "C19.digits: zero has one digit"); }
+    else { assert!(p <= n as u128 && (n as u128) < p * 10, "C19.digits: 10^(d-1) <= n < 10^d"); }
+}
